@@ -25,7 +25,10 @@ ASSUMPTIONS = [
 ]
 
 METHODS = ["cell", "write", "set_cell_style", "set_cell_formatting", "set_cell_border"]
-BAD_CLASSES = [{"rel": "neg", "k": 1}, {"rel": "neg", "k": 2}, {"rel": "neg", "k": 3}, {"rel": "n", "k": 0}, {"rel": "n", "k": 1}, {"rel": "max", "k": 0}, {"rel": "max", "k": 1}]
+# beyond the limits incl. far beyond: columns whose A1 name has four and five letters (18278 = 'AAAA', 475254 = 'AAAAA'),
+# rows with seven and more digits
+BAD_CLASSES = [{"rel": "neg", "k": 1}, {"rel": "neg", "k": 2}, {"rel": "neg", "k": 3}, {"rel": "n", "k": 0}, {"rel": "n", "k": 1}, {"rel": "max", "k": 0}, {"rel": "max", "k": 1},
+               {"rel": "max", "k": 17278}, {"rel": "max", "k": 17300}, {"rel": "max", "k": 474254}, {"rel": "max", "k": 9000000}]
 
 
 def bound_spec(rng):
